@@ -106,10 +106,13 @@ def attempt(chk, tier, ex, leak, nm, jobs, tag):
     sched = {
         "basemult": [dict(sym=pre + ".(*SM2Point).Double", n=13), dict(sym=pre + ".(*SM2Point).Add", n=14 * 3 - 1 + 1),
                      dict(sym=pre + ".(*SM2Point).multiSelectConditioned", n=14 * 3 + 1)],
-        "pinvert": [dict(sym=pre + "/fiat.sm2Square", n=fc["declared_squares"]), dict(sym=pre + "/fiat.sm2Mul", n=fc["declared_multiplies"])],
-        "ninvert": [dict(sym=pre + "/fiat.sm2ScalarSquare", n=sc_["declared_squares"]),
-                    dict(sym=pre + "/fiat.sm2ScalarMul", n=sc_["declared_multiplies"])],
+        "pinvert": [dict(sym=pre + "/fiat.sm2Square", n=fc.get("declared_squares", -1)),
+                    dict(sym=pre + "/fiat.sm2Mul", n=fc.get("declared_multiplies", -1))],
+        "ninvert": [dict(sym=pre + "/fiat.sm2ScalarSquare", n=sc_.get("declared_squares", -1)),
+                    dict(sym=pre + "/fiat.sm2ScalarMul", n=sc_.get("declared_multiplies", -1))],
     }
+    # an inversion routine that could not be read as an addition chain has no prescribed schedule
+    sched = {k: v for k, v in sched.items() if all(e["n"] >= 0 for e in v)}
     for ji, (prim, mode, pub, secrets, limit) in enumerate(jobs):
         if prim in sched:
             g.one("schedule_" + prim, "leak.schedule", prim=prim, records=res[(ji, 0)]["records"], expect=sched[prim])
